@@ -69,7 +69,7 @@ def gen_case(rng, k):
     conv = rng.randint(0, 3) if not viafile else rng.randint(0, 2)
     if conv == 1 and (nx + 1) * (ny + 1) > 99:
         conv = 0            # convention 1 has two-digit node/column names
-    surf_kind = rng.choice(['flat', 'stepped', 'sloping', 'stepped'])
+    surf_kind = rng.choice(['flat', 'stepped', 'sloping', 'stepped', 'raised'])
     atmvol = rng.choice([1e25, 1e25, 1e50, 0.0]) if atm != 2 else 1e25
     return {'dx': dx, 'dy': dy, 'dz': dz, 'origin': org, 'rotation': rot, 'atmos_type': atm, 'convention': conv,
             'surface_kind': surf_kind, 'atmosphere_volume': atmvol, 'via_file': viafile, 'seed': rng.randint(0, 10 ** 9),
@@ -96,7 +96,11 @@ def build_geo(case):
         for i, col in enumerate(cols):
             if i == full:
                 continue
-            if case['surface_kind'] == 'stepped':
+            if case['surface_kind'] == 'raised' and rng.random() < 0.5:
+                # ground above the top of the top layer (the top block of such a column is taller than its layer)
+                col.surface = lays[0].bottom + round(rng.uniform(0.05, 0.6) * case['dz'][0], 2)
+                continue
+            if case['surface_kind'] in ('stepped', 'raised'):
                 if rng.random() < 0.5:
                     continue
                 k = rng.randint(1, nz - 1)              # surface in layer k (never the bottom layer's bottom)
